@@ -3,7 +3,9 @@
    Also: the name de-duplication step (add_name / assign_names, with the retry loop of _ir._add_name) always
    terminates and returns pairwise distinct fresh names, for all name lists (names containing `$` included). *)
 From Coq Require Import ZArith List Bool String Ascii Lia ZifyBool DecimalString DecimalNat.
-From V.Model Require Import Rtlil.
+From V.Model Require Import Bits Rtlil.
+From V.Model Require Shape.
+From V.Proofs Require Import BitsP ShapeP.
 Import ListNotations.
 Open Scope Z_scope.
 
@@ -308,16 +310,52 @@ Proof.
   - split; [intros _ s E; discriminate | reflexivity].
 Qed.
 
+Lemma optz_eqb_spec : forall o v, optz_eqb o v = true <-> o = Some v.
+Proof.
+  intros [u|] v; simpl.
+  - rewrite Z.eqb_eq. split; intro H; [subst|inversion H]; reflexivity.
+  - split; discriminate.
+Qed.
+
+Lemma param_num_ok_spec : forall ps nx, param_num_ok ps nx = true <-> ParamNumOk ps nx.
+Proof.
+  intros ps nx. unfold param_num_ok, ParamNumOk. destruct (xval_num (snd nx)) as [v|].
+  - rewrite existsb_exists. split.
+    + intros [p [Hp H]] v' E. inversion E; subst. apply andb_true_iff in H. destruct H as [H1 H2].
+      apply String.eqb_eq in H1. apply optz_eqb_spec in H2. exists p. auto.
+    + intro H. destruct (H v eq_refl) as [p [Hp [H1 H2]]]. exists p. split; [assumption|].
+      apply andb_true_iff. split; [apply String.eqb_eq | apply optz_eqb_spec]; assumption.
+  - split; [intros _ v E; discriminate | reflexivity].
+Qed.
+
+Lemma attr_num_ok_spec : forall ats nx, attr_num_ok ats nx = true <-> AttrNumOk ats nx.
+Proof.
+  intros ats nx. unfold attr_num_ok, AttrNumOk. destruct (xval_num (snd nx)) as [v|].
+  - rewrite existsb_exists. split.
+    + intros [p [Hp H]] v' E. inversion E; subst. apply andb_true_iff in H. destruct H as [H1 H2].
+      apply String.eqb_eq in H1. apply optz_eqb_spec in H2. exists p. auto.
+    + intro H. destruct (H v eq_refl) as [p [Hp [H1 H2]]]. exists p. split; [assumption|].
+      apply andb_true_iff. split; [apply String.eqb_eq | apply optz_eqb_spec]; assumption.
+  - split; [intros _ v E; discriminate | reflexivity].
+Qed.
+
 Lemma cell_is_spec : forall f m c, cell_is f m c = true <-> CellIs f m c.
 Proof.
   intros f m c. unfold cell_is, CellIs.
   rewrite !andb_true_iff, !String.eqb_eq, (same_set_spec param_eqb param_eqb_spec),
-    (same_set_spec attr_eqb attr_eqb_spec), forallb_forall.
+    (same_set_spec attr_eqb attr_eqb_spec), !forallb_forall.
   split.
-  - intros [[[[[H1 H2] H3] H4] H5] H6]. repeat split; try assumption; try apply H4; try apply H5.
-    intros p Hp. apply fport_ok_spec. apply H6. assumption.
-  - intros [H1 [H2 [H3 [H4 [H5 H6]]]]]. repeat split; try assumption; try apply H4; try apply H5.
-    intros p Hp. apply fport_ok_spec. apply H6. assumption.
+  - intros [[[[[[[H1 H2] H3] H4] H5] H6] H7] H8].
+    split; [assumption|]. split; [assumption|]. split; [assumption|]. split; [assumption|].
+    split; [assumption|]. split; [|split].
+    + intros nx Hn. apply param_num_ok_spec. apply H6. assumption.
+    + intros nx Hn. apply attr_num_ok_spec. apply H7. assumption.
+    + intros p Hp. apply fport_ok_spec. apply H8. assumption.
+  - intros [H1 [H2 [H3 [H4 [H5 [H6 [H7 H8]]]]]]].
+    split; [split; [split; [split; [split; [split; [split|]|]|]|]|]|]; try assumption.
+    + intros nx Hn. apply param_num_ok_spec. apply H6. assumption.
+    + intros nx Hn. apply attr_num_ok_spec. apply H7. assumption.
+    + intros p Hp. apply fport_ok_spec. apply H8. assumption.
 Qed.
 
 Lemma foreign_ok_spec : forall d f, foreign_ok d f = true <-> ForeignOk d f.
@@ -377,6 +415,100 @@ Proof.
   intros ex d m W w Hw. apply In_find_wire; [|assumption].
   pose proof (wf_names_unique _ _ _ W) as H. unfold mod_names in H.
   apply NoDup_app_l in H. assumption.
+Qed.
+
+(* ------------------------------------------------------------------ _const(): reading back what was written *)
+Lemma bits_lsb_length : forall n v, List.length (bits_lsb n v) = n.
+Proof. induction n as [|n IH]; intro v; simpl; [reflexivity|]. rewrite IH. reflexivity. Qed.
+
+Lemma bits_lsb_01 : forall n v, forallb is01 (bits_lsb n v) = true.
+Proof.
+  induction n as [|n IH]; intro v; simpl; [reflexivity|]. rewrite IH, andb_true_r.
+  unfold is01. pose proof (Z.mod_pos_bound v 2 ltac:(lia)). lia.
+Qed.
+
+Lemma unsigned_of_bits_lsb : forall n v, unsigned_of (bits_lsb n v) = v mod 2 ^ Z.of_nat n.
+Proof.
+  induction n as [|n IH]; intro v.
+  - simpl. rewrite Z.mod_1_r. reflexivity.
+  - cbn [bits_lsb unsigned_of]. rewrite IH, Nat2Z.inj_succ, Z.pow_succ_r by lia.
+    rewrite Z.rem_mul_r; [reflexivity | lia | apply pow2_pos; lia].
+Qed.
+
+Lemma decode_bits_lsb : forall w sg v, 0 <= w ->
+  decode_bits sg (bits_lsb (Z.to_nat w) v) = norm (Sh w sg) (v mod 2 ^ w).
+Proof.
+  intros w sg v Hw. unfold decode_bits. rewrite bits_lsb_length, unsigned_of_bits_lsb, Z2Nat.id by assumption.
+  reflexivity.
+Qed.
+
+Lemma const_width_ge : forall v, 32 <= const_width v /\ Shape.bits_for v false <= const_width v.
+Proof. intro v. unfold const_width. lia. Qed.
+
+(* ALL integers: the constant _const writes (decimal inside [0, 2^31-1), otherwise max(32, bits_for v) binary
+   digits, marked signed when v < 0) denotes v again *)
+Theorem emit_int_decodes : forall v, decode_param (fst (emit_int v)) (snd (emit_int v)) = Some v.
+Proof.
+  intro v. unfold emit_int. destruct ((0 <=? v) && (v <? 2 ^ 31 - 1)) eqn:R; [reflexivity|].
+  cbn [fst snd decode_param]. rewrite bits_lsb_01. f_equal.
+  destruct (const_width_ge v) as [H32 Hbf]. set (w := const_width v) in *.
+  rewrite decode_bits_lsb by lia.
+  destruct (v <? 0) eqn:N.
+  - change (1 =? 1) with true. rewrite norm_signed. fold (mask w v). rewrite sext_mask by lia.
+    apply sext_small; [lia|].
+    assert (Hneg : v <= 0) by (apply Z.ltb_lt in N; lia).
+    destruct (bits_for_signed_fits v false (or_intror Hneg)) as [Hf H1].
+    unfold fits, in_range in Hf. simpl in Hf.
+    pose proof (pow2_mono (Shape.bits_for v false - 1) (w - 1) ltac:(lia)). lia.
+  - change (0 =? 1) with false. rewrite norm_unsigned. fold (mask w v). rewrite mask_idem by lia.
+    apply mask_small.
+    assert (Hv : 0 < v).
+    { apply Z.ltb_ge in N. apply andb_false_iff in R. destruct R as [R|R].
+      - apply Z.leb_gt in R. lia.
+      - apply Z.ltb_ge in R. lia. }
+    pose proof (bits_for_unsigned_fits v Hv) as Hf. unfold fits, in_range in Hf. simpl in Hf.
+    pose proof (bits_for_nonneg v false).
+    pose proof (pow2_mono (Shape.bits_for v false) w ltac:(lia)). lia.
+Qed.
+
+(* Const(v, shape) of any well-formed shape: the written constant has exactly `width` digits and denotes the
+   constant's (normalised) value *)
+Theorem emit_const_decodes : forall v w sg, wf_shape (Sh w sg) = true ->
+  decode_param (fst (emit_xval (XConst v w sg))) (snd (emit_xval (XConst v w sg))) = Some (norm (Sh w sg) v) /\
+  (forall bits, snd (emit_xval (XConst v w sg)) = PBits bits -> Z.of_nat (List.length bits) = w).
+Proof.
+  intros v w sg Hwf. assert (Hw : 0 <= w) by (unfold wf_shape in Hwf; simpl in Hwf; destruct sg; lia).
+  cbn [emit_xval fst snd decode_param]. rewrite bits_lsb_01. split.
+  - f_equal. rewrite decode_bits_lsb by assumption.
+    destruct sg.
+    + change (1 =? 1) with true. rewrite !norm_signed. fold (mask w v). apply sext_mask.
+      unfold wf_shape in Hwf; simpl in Hwf; lia.
+    + change (0 =? 1) with false. rewrite !norm_unsigned. fold (mask w v). apply mask_idem. assumption.
+  - intros bits E. inversion E. rewrite bits_lsb_length. lia.
+Qed.
+
+Definition xval_wf (x : xval) : bool := match x with XConst _ w sg => wf_shape (Sh w sg) | _ => true end.
+
+Theorem emit_xval_decodes : forall x v, xval_wf x = true -> xval_num x = Some v ->
+  decode_param (fst (emit_xval x)) (snd (emit_xval x)) = Some v.
+Proof.
+  intros [v0|v0 w sg|s0|r0] v Hwf E; simpl in E; inversion E; subst.
+  - apply emit_int_decodes.
+  - apply emit_const_decodes. assumption.
+Qed.
+
+(* hence different integers are never written alike (flag included) *)
+Corollary emit_int_inj : forall a b, emit_int a = emit_int b -> a = b.
+Proof.
+  intros a b E. pose proof (emit_int_decodes a) as Ha. pose proof (emit_int_decodes b) as Hb.
+  rewrite E in Ha. rewrite Ha in Hb. inversion Hb. reflexivity.
+Qed.
+
+(* the numeric clause of CellIs follows from the textual one for well-formed values: nothing extra is demanded *)
+Lemma param_num_from_text : forall ps nx, xval_wf (snd nx) = true -> In (xparam_text nx) ps -> ParamNumOk ps nx.
+Proof.
+  intros ps nx Hwf Hin v E. exists (xparam_text nx). split; [assumption|]. split; [reflexivity|].
+  unfold xparam_text. simpl. apply emit_xval_decodes; assumption.
 Qed.
 
 (* ------------------------------------------------------------------ naming (_ir._add_name) *)
